@@ -86,3 +86,9 @@ claim("C12",
   "Trusted: go/ssa, SCCP evaluator, effect analysis; two listed single-iteration/single-caller idioms in checker/maporder.go. Not covered: the wildcard/regex/call filter conditions themselves, aliases generated for expanded calls, subquery type evaluation.",
   "static analysis: map-iteration order analysis + SCCP extraction of the precedence relation + merge-idiom and effect checks on SSA",
   "DESIGN.md 4/C12, 3/E7")
+
+claim("C15",
+  "The printing clause is decided completely: the Password fields are stored by the two parse functions and loaded nowhere in the package, and both printers write the constant [REDACTED] - no layout or password content can change that. For Sanitize the structural necessary conditions are decided: offsets are applied to the very text they were computed on and cut exactly capture group 1; each pattern is case-insensitive, demands no whitespace after `=`, and its capture admits a complete quoted literal with blanks and the other quote. Five known findings remain (comments between the keywords, and a quoted user name containing `=`): they need a tokenising Sanitize and are recorded, not repaired.",
+  "Trusted: go/types, go/ssa, regexp/syntax (used by the checker to parse the pattern constants). Not covered: full language inclusion between the patterns and the parser's token grammar; multi-statement texts beyond the offset rule.",
+  "static analysis: field-access scan (who reads Password), def-use check of match offsets on SSA, structural analysis of the pattern constants' syntax trees",
+  "DESIGN.md 4/C15")
